@@ -1190,6 +1190,103 @@ theorem generation_structure (cfg : Cfg) (c : Chain) (hc : Pipe.Consec c) (acts 
   have hi := (Pipe.Inv.init cfg c hc).run acts
   exact ⟨hi.ord5, hi.ord4, hi.ord1, hi.nc1, hi.nc3, fun lpv h => ⟨hi.tk1 lpv h, hi.tk2 lpv h⟩⟩
 
+/-- FOR EVERY SCHEDULE, a block is stored only by the verifiers' callback goroutine executing the
+`storeTask` of the item that is NEXT in its stream, with the context live, and that block passed
+`SanityCheckNewHeight`, carries the number head+1, names the head as parent and claims the root of the
+resulting state; no other step of any goroutine (fetchers, `isReverting`, the fetchers' callbacks,
+the main loop) stores anything. -/
+theorem pipeline_store_is_verified_and_extends (cfg : Cfg) (c : Chain) (acts : List Pipe.Act)
+    (a : Pipe.Act) (n h : Nat) :
+    let s := Pipe.run cfg (Pipe.St.init c) acts
+    let s' := Pipe.step cfg s a
+    Obs.stored n h ∈ s'.obs.drop s.obs.length →
+      ∃ req b flip, a = .vcb flip ∧ s.vq[s.vdone]? = some (.block req b) ∧ s.cancelled = false ∧
+        b.ok = true ∧ b.num = n ∧ b.hash = h ∧ b.num = nextHeight s.chain ∧
+        b.parent = expParent s.chain ∧ b.root = rootStep (stateRoot s.chain) b.diff ∧
+        s'.chain = b :: s.chain := by
+  intro s s' hs
+  have nothing : ∀ t : Pipe.St, t.obs = s.obs → Obs.stored n h ∈ t.obs.drop s.obs.length → False := by
+    intro t e hm; rw [e] at hm; simp at hm
+  cases a with
+  | spawn => exact (nothing s' rfl hs).elim
+  | fetchOk i b => exact (nothing s' (by simp only [s', Pipe.step]; split <;> rfl) hs).elim
+  | fetchCancelled i => exact (nothing s' (by simp only [s', Pipe.step]; split <;> (try split) <;> rfl) hs).elim
+  | fetchErr i =>
+    refine (nothing s' ?_ hs).elim
+    simp only [s', Pipe.step]; split
+    · split
+      · rfl
+      · split <;> rfl
+    · rfl
+  | localRead i rh =>
+    refine (nothing s' ?_ hs).elim
+    simp only [s', Pipe.step]; split
+    · split
+      · rfl
+      · split
+        · rfl
+        · split
+          · rfl
+          · split
+            · rfl
+            · split <;> rfl
+    · rfl
+  | confirm i cb =>
+    refine (nothing s' ?_ hs).elim
+    simp only [s', Pipe.step]; split
+    · split <;> rfl
+    · rfl
+  | fcb => exact (nothing s' (by simp only [s', Pipe.step]; split <;> rfl) hs).elim
+  | newGen => exact (nothing s' (by simp only [s', Pipe.step]; split <;> rfl) hs).elim
+  | iter ans revOk =>
+    exfalso
+    simp only [s', Pipe.step] at hs
+    cases ht : s.impl.task with
+    | none => simp [ht] at hs
+    | some lpv =>
+      simp only [ht, List.drop_left] at hs
+      obtain ⟨req, b, e, _⟩ := stored_verified_and_extends cfg s.impl _ n h hs
+      cases e
+  | vcb flip =>
+    simp only [s', Pipe.step] at hs ⊢
+    cases ht : s.impl.task with
+    | some _ => simp [ht] at hs
+    | none =>
+      simp only [ht] at hs ⊢
+      cases hv : s.vq[s.vdone]? with
+      | none => simp [hv] at hs
+      | some item =>
+        cases item with
+        | revert i hd tl d => simp [hv, Pipe.setF] at hs
+        | block req b =>
+          simp only [hv, List.drop_left] at hs ⊢
+          obtain ⟨req', b', e, h1, h2, h3, h4, h5, h6, h7⟩ := stored_verified_and_extends cfg s.impl _ n h hs
+          injection e with e1 e2 e3
+          subst e1 e2
+          exact ⟨req, b, flip, rfl, rfl, e3, h1, h2, h3, h4, h5, h6, h7⟩
+
+/-- FOR EVERY SCHEDULE, one step of one goroutine leaves the chain alone, or stores one block on top
+(previous theorem), or removes the head inside a running `revertTask` (an explicit `RevertHead`,
+observed as `reverted`): the head never moves otherwise, whatever the fetchers and callbacks do. -/
+theorem pipeline_head_moves_back_only_by_revert (cfg : Cfg) (c : Chain) (hc : Pipe.Consec c)
+    (acts : List Pipe.Act) (a : Pipe.Act) :
+    let s := Pipe.run cfg (Pipe.St.init c) acts
+    let s' := Pipe.step cfg s a
+    s'.chain = s.chain ∨
+    (∃ b, s'.chain = b :: s.chain ∧ Obs.stored b.num b.hash ∈ s'.obs.drop s.obs.length) ∨
+    (∃ hd lpv, s.chain = hd :: s'.chain ∧ s.impl.task = some lpv ∧
+      s'.obs.drop s.obs.length = [Obs.reverted hd.num hd.hash]) := by
+  intro s s'
+  have hi := (Pipe.Inv.init cfg c hc).run acts
+  rcases Pipe.step_refines hi a with ⟨h1, _, _⟩ | ⟨e, _, h2, h3⟩
+  · left; show s'.impl.node.chain = s.impl.node.chain; rw [h1]
+  · have hd : s'.obs.drop s.obs.length = (s.impl.step cfg e).2 := by rw [h3, List.drop_left]
+    rcases head_moves_back_only_by_revert cfg s.impl e with h | ⟨b, ha, hb⟩ | ⟨hd', lpv, ha, hb, hc'⟩
+    · left; show s'.impl.node.chain = s.impl.node.chain; rw [h2]; exact h
+    · right; left; exact ⟨b, by show s'.impl.node.chain = _; rw [h2]; exact ha, by rw [hd]; exact hb⟩
+    · right; right
+      exact ⟨hd', lpv, by show s.impl.node.chain = hd' :: s'.impl.node.chain; rw [h2]; exact ha, hb, by rw [hd]; exact hc'⟩
+
 -- non-vacuity: node holds [x1, g]; the source has reorged to [y1, g]. Two fetchers are spawned (heights
 -- 2 and 3); the fetch of 2 fails, `isReverting` passes the gate, reads the latest header (1, hash 12),
 -- the local header 1 (hash 2), confirms block y1, returns "reorg" (lpv 0); meanwhile fetcher 3 gets an
